@@ -536,6 +536,7 @@ pub fn run_c15(a: &WorkerArgs) -> Out {
             Case15::Diff(job, _) => {
                 let mut rng = Rng::stream(prng::run_seed(a.seed, "C15", idx), "diff");
                 let before = ds.failing_parses + ds.refusal_points;
+                let pairs_before = ds.pairs;
                 match c15::differential(&job, MAX_CALLS, 120, &mut rng, &mut ds) {
                     Ok(v) => {
                         diffs += 1;
@@ -546,7 +547,7 @@ pub fn run_c15(a: &WorkerArgs) -> Out {
                         let class = v.as_ref().map(|v| v.class.clone()).unwrap_or_else(|| "ok".into());
                         bump(&mut classes, &class);
                         if a.trace_runs {
-                            run_lines.push(format!("{idx} diff {} {class}", ds.pairs));
+                            run_lines.push(format!("{idx} diff {} {class}", ds.pairs - pairs_before));
                         }
                         if samples.len() < 2 && a.wid == 0 && (diffs == 5 || diffs == 50) {
                             let p = parsework::Prepared::new(&job).unwrap();
